@@ -87,6 +87,13 @@ def make_runner(rk, tmpdir, seed):
             self.invocations += 1
             return Measurements([(0,) * circuit.n_qubits] * n_samples)
 
+    class PlainX(Plain):
+        """a device that executes in blocks of 4 shots: delivers at least what was asked"""
+
+        def _run_and_measure(self, circuit, n_samples):
+            self.invocations += 1
+            return Measurements([(0,) * circuit.n_qubits] * (4 * ((n_samples + 3) // 4)))
+
     class Wf(BaseWavefunctionSimulator):
         def __init__(self, nat, seed):
             super().__init__(seed=seed)
@@ -106,6 +113,8 @@ def make_runner(rk, tmpdir, seed):
     def base(k, nat):
         if k == "plain":
             return Plain()
+        if k == "plainx":
+            return PlainX()
         if nat.get("g") and nat.get("p"):
             return SymbolicSimulator(seed=seed)
         return Wf(nat, seed)
@@ -326,7 +335,7 @@ def record_traces(ctx):
         {"ops": ["p", "g", "g", "p", "g"], "w": 2, "sym": False},
         {"ops": ["p"], "w": 1, "sym": False},
     ]
-    allk = kinds + [("wf", "none", {"g": False, "p": True}), ("wf", "none", {"g": False, "p": False})]
+    allk = kinds + [("wf", "none", {"g": False, "p": True}), ("wf", "none", {"g": False, "p": False}), ("plainx", "none", {}), ("trk", "plainx", {})]
     nhist = 30 if ctx.tier == "quick" else 200
     for h in range(nhist):
         rk = allk[h % len(allk)]
